@@ -247,6 +247,55 @@ def pin_persistence(ck, prog, config):
               fn.file, r.violations[0].node.line if r.violations else fn.line,
               path=r.violations[0].path if r.violations else None, config=config)
     ck.min_instances('pin writes in the option setters', n, 3)
+    # who may touch a pin: the option setters set them, and what releases the context's resources may drop them only on
+    # the way to freeing the context.  A function that clears or frees a pin and is reachable from an entry point other
+    # than zck_free() (an init that "releases what the previous file left") un-pins a context the caller believes pinned
+    PINS = ('prep_digest', 'prep_hash_type', 'prep_hdr_size')
+    SETTERS = ('zck_set_ioption', 'zck_set_soption')
+    writers = {}
+    for f_ in prog.lib_funcs():
+        if f_.body is None:
+            continue
+        for ex in all_exprs(f_):
+            for n_ in walk(ex):
+                if n_.k == 'bin' and n_.op.endswith('=') and n_.op not in ('==', '!=', '<=', '>='):
+                    l_ = strip(n_.a[0])
+                    if l_ is not None and l_.k == 'mem' and l_.op in PINS:
+                        writers.setdefault(f_.qname, (f_, n_, 'assigns %s' % l_.op))
+                elif n_.k == 'call' and callee_name(n_) == 'free' and len(n_.a) > 1:
+                    a_ = strip(n_.a[1])
+                    if a_ is not None and a_.k == 'mem' and a_.op in PINS:
+                        writers.setdefault(f_.qname, (f_, n_, 'frees %s' % a_.op))
+    callers = prog.callers()
+    bad = []
+    for q_, (f_, n_, how_) in sorted(writers.items()):
+        if f_.name in SETTERS:
+            continue
+        if 'zckCtx' in (f_.rtype or '') and (f_.rtype or '').rstrip().endswith('*'):
+            continue        # the constructor gives a fresh context its unset pins
+        # every chain of callers must end in zck_free
+        seen_, stack_ = set(), [f_]
+        while stack_:
+            g_ = stack_.pop()
+            if g_.qname in seen_:
+                continue
+            seen_.add(g_.qname)
+            cs_ = callers.get(g_.qname, [])
+            if g_.name == 'zck_free':
+                continue
+            if any('visibility' in str(a_).lower() for a_ in (g_.attrs or [])):
+                bad.append((f_, n_, how_, g_.name))      # a public entry point other than the release of the context
+                continue
+            for cf_, c_ in cs_:
+                if prog.is_lib_unit(cf_.unit):
+                    stack_.append(cf_)
+    ck.ob('C07-j', 'R7.pin-writers', 'pins', 'who-may-clear', not bad,
+          '%d function(s) write a pin: the option setters, and %s reachable only from zck_free()' % (
+              len(writers), ', '.join(sorted(f_.name for f_, _, _ in writers.values() if f_.name not in SETTERS)) or 'none')
+          if not bad else '%s() %s and is reachable from %s(), which is not the release of the context: a pinned context '
+          'silently loses that pin (a NULL prep_digest means "no digest pinned") while the caller still relies on it'
+          % (bad[0][0].name, bad[0][2], bad[0][3]), bad[0][1].file if bad else None, bad[0][1].line if bad else 0,
+          config=config)
 
 
 class NegToPtr(errdisc.SiteRule):
